@@ -253,10 +253,27 @@ class Console:
 MODEL = {4: papi.AirTouchModel.AIRTOUCH_4, 5: papi.AirTouchModel.AIRTOUCH_5}
 
 
+class RecordingSocket:
+    """A real AirTouchSocket behind a thin proxy that notes every send(message, policy).
+    The API classes receive it through their public constructors (as the factory does)."""
+
+    def __init__(self, real) -> None:
+        self._real = real
+        self.sends: list[tuple] = []
+
+    async def send(self, message, retry_policy):
+        self.sends.append((message, retry_policy))
+        return await self._real.send(message, retry_policy)
+
+    def __getattr__(self, name):
+        return getattr(self._real, name)
+
+
 class ApiRig:
     """A real client (pyairtouch.connect) against a Console on the virtual loop."""
 
-    def __init__(self, inst: Installation, rng: Optional[random.Random] = None, latency_ticks: int = 1) -> None:
+    def __init__(self, inst: Installation, rng: Optional[random.Random] = None, latency_ticks: int = 1,
+                 record_sends: bool = False) -> None:
         self.inst = inst
         self.gen = inst.gen
         self.loop, self.net = vloop.new_loop()
@@ -265,11 +282,23 @@ class ApiRig:
         self.console = Console(inst, self.net, rng)
         self.at = None
 
-        async def mk():
-            return pyairtouch.connect(MODEL[self.gen], "10.0.0.1", 9000 + self.gen)
-        t = self.loop.create_task(mk())
-        self.loop.settle()
-        self.at = t.result()
+        self.sock = None
+        if record_sends:
+            import pyairtouch.comms.socket as psock
+            real = psock.AirTouchSocket(self.loop, "10.0.0.1", 9000 + self.gen, sockrun.registry(self.gen))
+            self.sock = RecordingSocket(real)
+            if self.gen == 4:
+                import pyairtouch.at4.api as api
+                self.at = api.AirTouch4(self.loop, "<airtouch-1>", "10.0.0.1-9004", "AirTouch 4", self.sock)
+            else:
+                import pyairtouch.at5.api as api
+                self.at = api.AirTouch5(self.loop, "<airtouch-1>", "10.0.0.1-9005", "AirTouch 5", self.sock)
+        else:
+            async def mk():
+                return pyairtouch.connect(MODEL[self.gen], "10.0.0.1", 9000 + self.gen)
+            t = self.loop.create_task(mk())
+            self.loop.settle()
+            self.at = t.result()
 
     def now_ticks(self) -> int:
         return int(round(self.loop.time() * 1024))
